@@ -240,7 +240,7 @@ NOT_APPLICABLE = {
     "C04": "not yet under contract in this revision (typestate planned, DESIGN.md §4 C04)",
     "C05": "schedules are outside contract reach; sequential publication protocol not yet under contract in this revision",
     "C06": "effect clauses not yet built in this revision (DESIGN.md §4 C06)",
-    "C07": "relational over pairs of histories; a contract constrains one call (DESIGN.md §5)",
+    "C07": "relational over pairs of histories: a contract constrains one call of one router, and the canonical-form route (lookups as functions of a canonical tree) needs the functional correctness of the walk that C01 leaves bounded (DESIGN.md section 5). The bounded stand-ins of C01 (two insertion orders per route set) and C02 (operation sequences against a map) exercise history independence on their bounded spaces, but no check is registered for C07 and nothing is claimed.",
     "C08": "not yet under contract in this revision beyond FixTrailingSlash (DESIGN.md §4 C08)",
     "C09": "not yet under contract in this revision (DESIGN.md §4 C09)",
     "C10": "not yet under contract in this revision (DESIGN.md §4 C10)",
